@@ -68,6 +68,11 @@ func c13Case(r *core.Run, idx int, rng *rand.Rand) {
 	decodable, registered := true, true
 	issued, expiry := "past", "absent"
 	fmtTS := func(t time.Time) string {
+		if rng.Intn(3) == 0 {
+			// the same instant written with a numeric zone offset (legal xs:dateTime, unusual in SAML)
+			off := []int{2 * 3600, -2 * 3600, 5*3600 + 1800, -8 * 3600, 14 * 3600, 60}[rng.Intn(6)]
+			return t.In(time.FixedZone("", off)).Format("2006-01-02T15:04:05-07:00")
+		}
 		if layout == "" || rng.Intn(2) == 0 {
 			return tsFrac(t, rng.Intn(10))
 		}
@@ -199,20 +204,83 @@ func c13Case(r *core.Run, idx int, rng *rand.Rand) {
 	}
 }
 
+// c13Registration checks that replies follow the CURRENT registration of the requester on a long-lived provider.
+func c13Registration(r *core.Run, idx int, rng *rand.Rand) {
+	const wl = "registration_changes"
+	e := env.Static(env.Opts{})
+	d := stdSP(0)
+	loc := func(k int) string { return fmt.Sprintf("https://sp0.example/slo/v%d", k) }
+	d.SLO = []spsim.SLO{{Binding: spsim.BindPost, Location: loc(0)}}
+	mustRegister(e.W, d, "appA")
+	other := stdSP(1)
+	other.SLO = []spsim.SLO{{Binding: spsim.BindPost, Location: "https://sp1.example/slo"}}
+	mustRegister(e.W, other, "appB")
+	registered, cur := true, 0
+	for k := 0; k < 8; k++ {
+		switch rng.Intn(4) {
+		case 0: // re-register with another location
+			cur++
+			d2 := *d
+			d2.SLO = []spsim.SLO{{Binding: spsim.BindPost, Location: loc(cur)}, {Binding: spsim.BindPost, Location: loc(0) + "/old"}}
+			mustRegister(e.W, &d2, "appA")
+			registered = true
+		case 1: // deregister
+			e.W.RemoveSP(d.EntityID)
+			registered = false
+		}
+		l := conformantLogout(rng, d)
+		s := ssoSend{Path: env.PathSLO, Binding: []string{"redirect", "post"}[rng.Intn(2)], XML: l.XML(rng), HasRelay: true, Relay: "MKrelay"}
+		call, _ := s.do(e)
+		class := fmt.Sprintf("registration|registered=%v|version=%d|step=%d", registered, cur, k)
+		desc := map[string]any{"step": k, "registered": registered, "current_location": loc(cur)}
+		r.Eval(fmt.Sprintf("%s|%d", class, idx))
+		r.Count("registration_sequence_requests", 1)
+		viol := func(clause, reason string) {
+			r.Violate(core.Violation{Clause: clause, Class: class, Reason: reason, Workload: wl, Index: idx, Case: desc, Observed: call.Describe()})
+		}
+		if call.Panic != "" {
+			viol("panic", call.Panic)
+			return
+		}
+		if !registered {
+			if call.D.Success() {
+				viol("success_for_deregistered_requester", "LogoutResponse Success although the Issuer is no longer registered")
+			}
+			if call.D.Kind == "form" {
+				viol("target_without_registration", "posted to "+call.D.Target+" although the Issuer is no longer registered")
+			}
+			r.Count("deregistered_requests_checked", 1)
+			continue
+		}
+		if call.D.Kind == "form" && !onlyEncodes(loc(cur), call.D.Target) {
+			viol("target_not_current_registration", fmt.Sprintf("form action %q, currently registered first SingleLogoutService %q", call.D.Target, loc(cur)))
+		}
+		if !call.D.Success() {
+			r.Count("registered_but_not_success", 1)
+		}
+		r.Count("reregistered_requests_checked", 1)
+	}
+}
+
 func init() {
 	register(&Prop{
 		ID: "C13", Level: "exploration", DeathIsViolation: true,
 		TimeoutQuick: 5 * time.Minute, TimeoutThorough: 30 * time.Minute,
 		Build: func(c *Ctx) []core.Workload {
 			r := c.Run
-			r.Rule = "logout requests with labelled validity (decodable or not, Issuer registered / unregistered / empty, IssueInstant past / future / absent / unparseable by seconds to years in several lexical forms, NotOnOrAfter absent / passed / future / unparseable), optional NameID / SessionIndex, RelayState over valid UTF-8 without NUL incl. control characters and markup, both transport encodings, SPs with 0-3 SingleLogoutService entries with hostile URLs, static and host-derived issuers, all time layouts. Monitor: Success only for valid requests (bracket semantics), InResponseTo echo when decodable, Issuer = entity ID for the Host, target = first registered SingleLogoutService (only-encodes) or body, RelayState unchanged (modulo CR/CRLF->LF). Distinct = label tuple."
+			r.Rule = "logout requests with labelled validity (decodable or not, Issuer registered / unregistered / empty, IssueInstant past / future / absent / unparseable by seconds to years in several lexical forms, NotOnOrAfter absent / passed / future / unparseable), optional NameID / SessionIndex, RelayState over valid UTF-8 without NUL incl. control characters and markup, both transport encodings, SPs with 0-3 SingleLogoutService entries with hostile URLs, static and host-derived issuers, all time layouts. Monitor: Success only for valid requests (bracket semantics), InResponseTo echo when decodable, Issuer = entity ID for the Host, target = first registered SingleLogoutService (only-encodes) or body, RelayState unchanged (modulo CR/CRLF->LF). Instants are also written with numeric zone offsets. A second workload keeps ONE provider alive while the requester is re-registered with other locations or deregistered: every reply must follow the current registration. Distinct = label tuple."
 			r.Assume("absent or unparseable IssueInstant / NotOnOrAfter are not judged (rejecting them is allowed, accepting an absent one too)")
 			r.Require("success_replies", 50)
 			r.Require("invalid_requests", 100)
 			r.Require("echo_checked", 200)
 			r.Require("relay_checked", 50)
 			r.Require("delivered_in_body", 50)
-			return []core.Workload{{Name: "logout_requests", N: c.Pick(1200, 12000), Fn: c13Case}}
+			r.Require("deregistered_requests_checked", 100)
+			r.Require("reregistered_requests_checked", 100)
+			return []core.Workload{
+				{Name: "logout_requests", N: c.Pick(1200, 12000), Fn: c13Case},
+				{Name: "registration_changes", N: c.Pick(150, 1500), Fn: c13Registration},
+			}
 		},
 	})
 }
